@@ -9,6 +9,7 @@ func controlsC12() []Control {
 		{Name: "UpdateBlind stores bb into SB", Expect: "R4", Mutate: replaceIn("(*tableEngine).UpdateBlind", "BlindState.SB = sb", "BlindState.SB = bb", 0)},
 		{Name: "PauseTable also rewrites the blind level", Expect: "R4", Mutate: replaceIn("(*tableEngine).PauseTable", "te.table.State.Status = TableStateStatus_TablePausing", "te.table.State.Status = TableStateStatus_TablePausing\n\tte.table.State.BlindState.Level = -1", 0)},
 		{Name: "table created on a break is not paused", Expect: "R5", Mutate: replaceIn("(*tableEngine).CreateTable", "tableSetting.Blind.Level == -1", "tableSetting.Blind.Level == -2", 0)},
+		{Name: "pause decision taken before the continue interval", Expect: "R5", Mutate: replaceBoth("(*tableEngine).continueGame", "\t\tnextMoveInterval = te.options.GameContinueInterval\n", "\t\tshouldPause := te.table.ShouldPause()\n\t\tnextMoveInterval = te.options.GameContinueInterval\n", "if te.table.ShouldPause() {", "if shouldPause {")},
 		{Name: "pause predicate ignores breaks", Expect: "R5", Mutate: replaceIn("(Table).ShouldPause", "t.State.BlindState.IsBreaking() || ", "", 0)},
 		{Name: "published hand blinds report the next level", Expect: "R1", Mutate: replaceIn("(*tableEngine).startGame", "Level:  blind.Level,", "Level:  blind.Level + 1,", 0)},
 		{Name: "blinds count as set without a dealer amount", Expect: "R5", Mutate: replaceIn("(TableBlindState).IsSet", "bs.Dealer != UnsetValue && ", "", 0)},
